@@ -107,6 +107,7 @@ fn first_count_mismatch<'a, T: Eq + Hash>(a: &'a [T], b: &'a [T]) -> Option<&'a 
 ///
 /// This function is specifically designed for testing grouped or aggregated data
 /// where the order of keys may vary between runs but should be consistent when sorted.
+/// Rows that share a key are compared as a multiset, so their relative order does not matter.
 ///
 /// # Panics
 ///
@@ -137,11 +138,31 @@ where
         actual.len()
     );
 
-    for (i, ((ak, av), (ek, ev))) in actual.iter().zip(expected.iter()).enumerate() {
-        assert!(
-            !(ak != ek || av != ev),
-            "Collection mismatch at index {i} after sorting:\n  Expected: ({ek:?}, {ev:?})\n  Actual: ({ak:?}, {av:?})\n  Full expected: {expected:?}\n  Full actual: {actual:?}"
-        );
+    // The sort is by key only, so rows that share a key stay in input order. Compare each run of
+    // equal keys as a multiset: every actual row must pair up with its own equal expected row of
+    // the same run (`V` is only `PartialEq`, hence the scan; a run has length 1 when keys are unique).
+    let mut start = 0;
+    while start < actual.len() {
+        let mut end = start + 1;
+        while end < actual.len() && actual[end].0 == actual[start].0 {
+            end += 1;
+        }
+        let mut used = vec![false; end - start];
+        for i in start..end {
+            let (ak, av) = &actual[i];
+            let partner = (start..end)
+                .find(|&j| !used[j - start] && expected[j].0 == *ak && expected[j].1 == *av);
+            if let Some(j) = partner {
+                used[j - start] = true;
+            } else {
+                // Report the first expected row of the run that is still unpaired.
+                let (ek, ev) = &expected[(start..end).find(|&j| !used[j - start]).unwrap_or(i)];
+                panic!(
+                    "Collection mismatch at index {i} after sorting:\n  Expected: ({ek:?}, {ev:?})\n  Actual: ({ak:?}, {av:?})\n  Full expected: {expected:?}\n  Full actual: {actual:?}"
+                );
+            }
+        }
+        start = end;
     }
 }
 
